@@ -28,14 +28,19 @@ REFINED = ["add_one_in_place", "sub_one_in_place", "add_word_in_place", "sub_wor
            "carry_c0..carry_c3) and toom_3::add_signed_mul",
            "mul::add_signed_mul_same_len / mul::add_signed_mul dispatch (thresholds regenerated from source), "
            "simple::add_signed_mul, mul::multiply (asserted-zero carry is zero), mul_large for unequal operands",
+           "scratch memory: memory.rs bump allocation (word counter) + memory_requirement_* of mul/karatsuba/toom_3/sqr + "
+           "mul_large/square_large sizing: 'not enough memory allocated' unreachable for every operand size",
            "math::max_exp_in_word (k >= 1, base^k fits a word)", "pow binary loop (pow_word_base/pow_dword_base/pow_large_base)",
            "pow_word_base shortcuts (0,1,2,2^k) and word lifting", "TypedReprRef::pow shortcuts 0/1/2",
-           "UBig::pow factor-2 removal", "IBig::pow sign rule"]
-FRONTIER = ["inside toom_3: div_by_word_in_place(t1, 6) (C02) and shr_in_place(t2, 1) (C09) are taken at their "
-            "specification (their asserted-zero remainders are proved zero)",
-            "inside pow: buffers of pow_word_base/pow_dword_base carried as values (res*wbase = mul_word_in_place and "
-            "res*res = sqr::sqr proved separately); repr.shr(shift)/.shl(exp*shift)/trailing_zeros taken at spec (C09)",
-            "Memory scratch sizing (memory_requirement_*) and Buffer capacity / allocation panics (C17)"]
+           "UBig::pow factor-2 removal", "IBig::pow sign rule",
+           "pow_word_base/pow_dword_base with real buffers: capacity assertions, scratch allocation, 'never resize', "
+           "length bounds exp/wexp+1 and 2*exp",
+           "composition: Toom-3's div_by_word_in_place(t1,6) / shr_in_place(t2,1) are exactly C02's mirrored kernels with "
+           "remainder 0; UBig::pow/IBig::pow run through C09's mirrored trailing_zeros / >> / << (what the driver executes)"]
+FRONTIER = ["TRepr.pow executes pow_word_base/pow_dword_base on values; the word-list version with capacity and scratch "
+            "memory checks (powWordBaseBuf/powDwordBaseBuf) is proved panic-free, within the stated length bounds and to yield "
+            "the same Repr, but is not what the driver runs",
+            "Buffer MAX_CAPACITY clamping / allocation panics (C17)"]
 RULE = ("operand sizes drawn from the size classes {0,1,2,3,4,5, thr-1,thr,thr+1 for thr in 24,32,192, 385, 400, 1025, 2049...} x "
         "bit patterns {10..0, 1..1, 2^k, 2^k+-1, sparse, low words zero, random} x signs x "
         "{add,sub,mul,sqr,cubic,pow} x operand kinds (UBig, IBig, mixed); plus a deterministic block of carry/borrow chains "
@@ -246,9 +251,9 @@ LEVEL_TEXT = ("Machine-checked Lean 4 theorems, for every word size W >= 1, ever
               "(mul::multiply, the Toom-3 scratch arithmetic, sqr::simple) proved zero; the mirrored control flow of pow.rs computes "
               "base^exp with the IBig sign rule. The hand-written model is tied to /repo on every run by differential "
               "execution of model and real code over structured operands around every size-class and algorithm threshold, "
-              "all call forms. Taken at their specification (kernels of other properties): the single-word division by 6 "
-              "and the 1-bit shift inside Toom-3, the shifts and trailing_zeros around pow; scratch-memory sizing and "
-              "allocation are C17.")
+              "all call forms. The single-word division by 6 and the 1-bit shift inside Toom-3 and the shifts / "
+              "trailing_zeros around pow are composed with the mirrored kernels of C02 / C09 (no step at its specification); "
+              "buffer capacity and allocation are C17. Scratch-memory sufficiency of mul_large/square_large is proved for all sizes.")
 LEVEL_NOTE = ("Trusted: Lean kernel; axioms propext/Classical.choice/Quot.sound; the correspondence harness and generators "
               "(sampling) for the tie model<->code; arch intrinsics (add_with_carry, sub_with_borrow, overflowing_add, "
               "split_dword/extend_word) at their documented contracts; frontier kernels listed in evidence are modelled as "
